@@ -1486,3 +1486,471 @@ Proof.
     as (n & f & Hn & Hf & ->).
   exact (files_copied_beside es (page_tree proj es) n f Hn Hf).
 Qed.
+
+(* ------------------------------------------------------------------------------------------ *)
+(* copy_subdir over a whole run: the directories named by the copy_subdir list of an index.md
+   are completely present below <output>/page at the end, whatever was written before
+   (copytree refuses an existing destination) *)
+Definition made (q : list str) (st : fs) : Prop := In (q, Made) (f_dirs st).
+Definition copied (q : list str) (st : fs) : Prop := In (q, Copied) (f_dirs st).
+
+Lemma dir_exists_iff p st : dir_exists p st = true <-> made p st \/ copied p st.
+Proof.
+  unfold dir_exists, made, copied. rewrite existsb_exists. split.
+  - intros ([q k] & Hin & E). simpl in E. apply path_eqb_eq in E. subst q.
+    destruct k; auto.
+  - intros [H|H]; eexists; (split; [exact H|]); simpl; now apply path_eqb_eq.
+Qed.
+
+(* every source file below the source directory with path q is present *)
+Definition complete (root : list entry) (q : list str) (st : fs) : Prop :=
+  forall parent nm es sub, q = parent ++ [nm] -> dir_at parent root = Some es ->
+    find_entry nm es = Some (Dir nm sub) ->
+    forall p, In p (all_files (Dir nm sub)) -> has (parent ++ p) st.
+Definition inv (root : list entry) (st : fs) : Prop :=
+  forall q, copied q st -> complete root q st.
+
+Lemma complete_grows root q st st' : complete root q st -> grows st st' -> complete root q st'.
+Proof. intros H G parent nm es sub E D F p Hp. apply G. eapply H; eauto. Qed.
+
+Lemma inv_same root st st' :
+  inv root st -> grows st st' -> (forall q, copied q st' -> copied q st) -> inv root st'.
+Proof. intros H G C q Hq. eapply complete_grows; eauto. Qed.
+
+Lemma dir_at_app a b root :
+  dir_at (a ++ b) root = match dir_at a root with Some es => dir_at b es | None => None end.
+Proof.
+  revert root; induction a as [|d a IH]; intros root; simpl; auto.
+  destruct (find_entry d root) as [[? ? ? ?|? es']|]; auto.
+Qed.
+
+Lemma all_files_nested r : forall sub es3 nm sub3 p3,
+  dir_at r sub = Some es3 -> find_entry nm es3 = Some (Dir nm sub3) ->
+  In p3 (all_files (Dir nm sub3)) -> In (r ++ p3) (flat_map all_files sub).
+Proof.
+  induction r as [|d1 r IH]; intros sub es3 nm sub3 p3 Hd Hf Hp; simpl in *.
+  - injection Hd as <-. apply find_entry_name in Hf as [_ Hin].
+    apply in_flat_map. eauto.
+  - destruct (find_entry d1 sub) as [[? ? ? ?|d1' sub1]|] eqn:F1; try discriminate.
+    pose proof (find_entry_name _ _ _ F1) as [E1 Hin1]. simpl in E1. subst d1'.
+    apply in_flat_map. exists (Dir d1 sub1). split; auto.
+    simpl. apply in_map. eapply IH; eauto.
+Qed.
+
+Lemma all_dirs_head n sub p : In p (all_dirs (Dir n sub)) -> exists r, p = n :: r.
+Proof.
+  simpl. intros [<-|H]; eauto. apply in_map_iff in H as (r & <- & _). eauto.
+Qed.
+
+Lemma has_new_files loc item sub st p :
+  In p (all_files (Dir item sub)) ->
+  In (loc ++ p)
+     (map fst (rev (map (fun p => (loc ++ p, Copy (loc ++ p))) (all_files (Dir item sub)))
+               ++ f_files st)).
+Proof.
+  intros Hp. rewrite map_app, in_app_iff. left.
+  rewrite map_rev, <- in_rev, map_map. simpl. apply in_map_iff. eauto.
+Qed.
+
+Lemma inv_copy_item root loc st item : inv root st -> inv root (copy_item root loc st item).
+Proof.
+  intros Hinv. unfold copy_item.
+  destruct (dir_at loc root) as [es|] eqn:Hd; auto.
+  destruct (find_entry item es) as [[? ? ? ?|d sub]|] eqn:Hf; auto.
+  destruct (dir_exists (loc ++ [item]) st) eqn:Hex; auto.
+  pose proof (find_entry_name _ _ _ Hf) as [Ed _]. simpl in Ed. subst d.
+  intros q Hq. unfold copied in Hq. cbn [f_dirs] in Hq. apply in_app_iff in Hq as [Hq|Hq].
+  - apply in_map_iff in Hq as (p' & Eq & Hp'). injection Eq as <-.
+    apply all_dirs_head in Hp' as [r' ->].
+    intros parent nm es2 sub2 E D2 F2 p3 Hp3. unfold has. cbn [f_files].
+    destruct r' as [|nm' r'' _] using rev_ind.
+    + (* the copied directory itself *)
+      apply app_inj_tail in E as [<- <-].
+      rewrite Hd in D2. injection D2 as <-. rewrite Hf in F2. injection F2 as <-.
+      now apply has_new_files.
+    + (* a nested directory of the copied one *)
+      assert (E' : (loc ++ item :: r'') ++ [nm'] = parent ++ [nm])
+        by (rewrite <- E, <- app_assoc; reflexivity).
+      apply app_inj_tail in E' as [<- <-].
+      rewrite dir_at_app, Hd in D2. simpl in D2. rewrite Hf in D2.
+      pose proof (all_files_nested r'' sub es2 nm' sub2 p3 D2 F2 Hp3) as X.
+      replace ((loc ++ item :: r'') ++ p3) with (loc ++ (item :: r'' ++ p3))
+        by (rewrite <- app_assoc; reflexivity).
+      apply has_new_files. simpl. now apply in_map.
+  - eapply complete_grows; [apply Hinv; exact Hq|].
+    intros p Hp. unfold has. cbn [f_files]. rewrite map_app, in_app_iff. now right.
+Qed.
+
+Lemma copied_mkdir q p st : copied q (mkdir p st) -> copied q st.
+Proof.
+  unfold mkdir, copied. destruct (dir_exists p st); auto. simpl. intros [H|H]; [discriminate|auto].
+Qed.
+Lemma made_mkdir q p st : made q (mkdir p st) -> made q st \/ q = p.
+Proof.
+  unfold mkdir, made. destruct (dir_exists p st); auto. simpl. intros [[= <-]|H]; auto.
+Qed.
+Lemma made_copy_item root loc st item q : made q (copy_item root loc st item) -> made q st.
+Proof.
+  unfold copy_item, made.
+  destruct (dir_at loc root) as [es|]; auto.
+  destruct (find_entry item es) as [[? ? ? ?|d sub]|]; auto.
+  destruct (dir_exists (loc ++ [item]) st); auto.
+  cbn [f_dirs]. rewrite in_app_iff. intros [H|H]; auto.
+  apply in_map_iff in H as (? & H & _). discriminate.
+Qed.
+
+Lemma inv_mkdir root p st : inv root st -> inv root (mkdir p st).
+Proof.
+  intros H. eapply inv_same; eauto; [apply grows_mkdir|]. intros q. apply copied_mkdir.
+Qed.
+Lemma inv_add_file root p o st : inv root st -> inv root (add_file p o st).
+Proof. intros H. eapply inv_same; eauto. apply grows_add_file. Qed.
+
+Definition copied_ok (root : list entry) (st : fs) (n : node) : Prop :=
+  forall item es sub, In item (n_copy n) -> dir_at (n_loc n) root = Some es ->
+    find_entry item es = Some (Dir item sub) ->
+    forall p, In p (all_files (Dir item sub)) -> has (n_loc n ++ p) st.
+
+Lemma copied_ok_grows root st st' n : copied_ok root st n -> grows st st' -> copied_ok root st' n.
+Proof. intros H G item es sub Hi Hd Hf p Hp. apply G. eapply H; eauto. Qed.
+
+Lemma fold_copy_items root loc l : forall st,
+  inv root st -> (forall item, In item l -> ~ made (loc ++ [item]) st) ->
+  inv root (fold_left (copy_item root loc) l st) /\
+  (forall q, made q (fold_left (copy_item root loc) l st) -> made q st) /\
+  forall item es sub, In item l -> dir_at loc root = Some es ->
+    find_entry item es = Some (Dir item sub) ->
+    forall p, In p (all_files (Dir item sub)) ->
+              has (loc ++ p) (fold_left (copy_item root loc) l st).
+Proof.
+  induction l as [|i0 l IH]; intros st Hinv Hm; cbn [fold_left].
+  - split; auto. split; auto. intros ? ? ? [].
+  - assert (A1 : inv root (copy_item root loc st i0)) by now apply inv_copy_item.
+    assert (A2 : forall item, In item l -> ~ made (loc ++ [item]) (copy_item root loc st i0)).
+    { intros item Hi Hmade. apply made_copy_item in Hmade. apply (Hm item); [now right|exact Hmade]. }
+    destruct (IH (copy_item root loc st i0) A1 A2) as (I1 & I2 & I3).
+    split; auto. split.
+    { intros q Hq. apply I2 in Hq. now apply made_copy_item in Hq. }
+    intros item es sub [<-|Hi] Hd Hf p Hp; [|eapply I3; eauto].
+    apply (grows_fold (copy_item root loc)); [intros; apply grows_copy_item|].
+    destruct (dir_exists (loc ++ [i0]) st) eqn:Hex.
+    + apply dir_exists_iff in Hex as [Hex|Hex].
+      * exfalso. apply (Hm i0); [now left|exact Hex].
+      * apply grows_copy_item. eapply (Hinv _ Hex loc i0); eauto.
+    + eapply copy_item_copies; eauto.
+Qed.
+
+Lemma fold_copy_files_dirs loc l : forall st,
+  f_dirs (fold_left (copy_file loc) l st) = f_dirs st.
+Proof. induction l as [|f l IH]; intros st; simpl; auto. now rewrite IH. Qed.
+
+Lemma write_node_inv root st n :
+  inv root st -> (forall item, ~ made (n_loc n ++ [item]) st) ->
+  inv root (write_node root st n) /\
+  (forall q, made q (write_node root st n) -> made q st \/ q = n_loc n) /\
+  copied_ok root (write_node root st n) n.
+Proof.
+  intros Hinv Hfresh. unfold write_node.
+  set (st1 := if is_index_file (n_file n) then mkdir (n_loc n) st else st).
+  assert (I1 : inv root st1) by (unfold st1; destruct (is_index_file _); auto using inv_mkdir).
+  assert (M1 : forall q, made q st1 -> made q st \/ q = n_loc n).
+  { unfold st1. destruct (is_index_file _); auto. intros q. apply made_mkdir. }
+  set (st2 := add_file (out_path n) (Page (src_path n)) st1).
+  assert (I2 : inv root st2) by now apply inv_add_file.
+  assert (M2 : forall q, made q st2 -> made q st \/ q = n_loc n) by (intros q; apply M1).
+  assert (F2 : forall item, In item (n_copy n) -> ~ made (n_loc n ++ [item]) st2).
+  { intros item _ Hm. apply M2 in Hm as [Hm|Hm]; [eapply Hfresh; eauto|].
+    apply (f_equal (@length _)) in Hm. rewrite app_length in Hm. simpl in Hm. lia. }
+  destruct (fold_copy_items root (n_loc n) (n_copy n) st2 I2 F2) as (I3 & M3 & C3).
+  set (st3 := fold_left (copy_item root (n_loc n)) (n_copy n) st2) in *.
+  assert (G : grows st3 (fold_left (copy_file (n_loc n)) (n_files n) st3))
+    by (apply grows_fold; intros; apply grows_copy_file).
+  split; [|split].
+  - eapply inv_same; eauto. intros q. unfold copied. now rewrite fold_copy_files_dirs.
+  - intros q. unfold made. rewrite fold_copy_files_dirs. intros Hq. apply M2. now apply M3.
+  - intros item es sub Hi Hd Hf p Hp. apply G. eapply C3; eauto.
+Qed.
+
+(* writing a whole node tree, recursively = folding write_node over the pre-order *)
+Fixpoint write_tree (root : list entry) (st : fs) (nd : node) {struct nd} : fs :=
+  match nd with
+  | Node _ _ _ _ _ _ subs =>
+    fold_left (fun st x => write_tree root st x) subs (write_node root st nd)
+  end.
+
+Lemma fold_left_flat_map {A B C} (f : A -> B -> A) (g : C -> list B) l : forall a,
+  fold_left f (flat_map g l) a = fold_left (fun a x => fold_left f (g x) a) l a.
+Proof.
+  induction l as [|x l IH]; intros a; simpl; auto. now rewrite fold_left_app, IH.
+Qed.
+
+Lemma fold_left_ext_in {A B} (f g : A -> B -> A) l :
+  (forall a x, In x l -> f a x = g a x) -> forall a, fold_left f l a = fold_left g l a.
+Proof.
+  induction l as [|x l IH]; intros H a; simpl; auto.
+  rewrite (H a x) by now left. apply IH. intros. apply H. now right.
+Qed.
+
+Lemma write_tree_preorder root nd : forall st,
+  write_nodes root (preorder nd) st = write_tree root st nd.
+Proof.
+  induction nd as [a b c d e f subs IH] using node_ind'. intros st.
+  rewrite preorder_node. unfold write_nodes. cbn [fold_left write_tree].
+  rewrite fold_left_flat_map. apply fold_left_ext_in.
+  intros st' x Hx. rewrite Forall_forall in IH. apply (IH x Hx).
+Qed.
+
+(* shape of the node trees that get_page_tree builds *)
+Inductive nwf : node -> Prop :=
+| nwf_node a b loc d e f subs :
+    NoDup (map n_name subs) ->
+    Forall (fun x => (n_file x <> idx /\ n_subs x = [] /\ n_loc x = loc) \/
+                     (n_file x = idx /\ n_loc x = loc ++ [n_name x] /\ nwf x)) subs ->
+    nwf (Node a b loc d e f subs).
+
+Lemma in_v_subs_inv x vs : In x (v_subs vs) -> In (VSub x) vs.
+Proof.
+  unfold v_subs. intros H. apply in_flat_map in H as (v & Hv & H).
+  destruct v as [| |n|f]; simpl in H; try contradiction. destruct H as [<-|[]]. exact Hv.
+Qed.
+
+Definition nwf_at (proj : list str) (e : entry) : Prop :=
+  forall d es, e = Dir d es -> forall pc loc nd,
+    wf_tree e = true -> gpt proj pc loc e = RNode nd -> nwf nd.
+
+Lemma gpt_nwf proj e : nwf_at proj e.
+Proof.
+  induction e as [|d0 es0 IH] using entry_ind'; intros d es E pc loc nd Hwf G; [discriminate|].
+  injection E as -> ->.
+  apply wf_dir in Hwf as [Hnd Hwf].
+  pose proof (subs_names proj pc loc es) as SN.
+  rewrite gpt_dir in G. destruct (titled_index es) as [[ord cp]|]; [|discriminate].
+  cbv zeta in G.
+  set (copy := eff_copy proj cp) in *.
+  set (sub := map (fun x => (ename x, gpt proj (Some copy) (loc ++ [ename x]) x)) es) in *.
+  set (M := merged (ordered_of ord) (listing es)) in *.
+  destruct (v_err _); [discriminate|]. injection G as <-.
+  constructor.
+  - unfold sub. rewrite SN. apply filter_nodup. now apply merged_nodup.
+  - apply Forall_forall. intros x Hx.
+    apply in_v_subs_inv, in_map_iff in Hx as (n & Hv & Hn).
+    assert (Hni : n <> idx).
+    { unfold M in Hn. rewrite order_documented in Hn by auto.
+      apply filter_In in Hn as [_ Hn]. unfold not_idx in Hn.
+      apply negb_true_iff, str_eqb_neq in Hn. congruence. }
+    destruct (visible n) eqn:Hvis.
+    2:{ destruct (visit_name_invis proj pc loc es sub n Hvis) as [X|X]; congruence. }
+    rewrite visit_name_vis in Hv by auto.
+    unfold sub in Hv. rewrite assoc_map_find in Hv.
+    destruct (find_entry n es) as [y|] eqn:FE; [|discriminate].
+    apply find_entry_name in FE as [En Hin].
+    destruct y as [f t o c|dn des]; simpl in En; subst.
+    + destruct (is_md n); [|discriminate]. destruct t; [|discriminate].
+      injection Hv as <-. left. simpl. auto.
+    + simpl in Hv. destruct (in_opt n pc); [discriminate|].
+      destruct (gpt proj (Some copy) (loc ++ [n]) (Dir n des)) as [| |ndx] eqn:G; try discriminate.
+      injection Hv as <-. right.
+      pose proof (gpt_node_fields _ _ _ _ _ _ G) as (F1 & F2 & F3).
+      rewrite F1, F2, F3. split; auto. split; auto.
+      rewrite Forall_forall in IH. eapply (IH _ Hin n des eq_refl); eauto.
+Qed.
+
+Lemma fold_copy_items_inv root loc l : forall st,
+  inv root st ->
+  inv root (fold_left (copy_item root loc) l st) /\
+  (forall q, made q (fold_left (copy_item root loc) l st) -> made q st).
+Proof.
+  induction l as [|i0 l IH]; intros st Hinv; cbn [fold_left]; auto.
+  destruct (IH (copy_item root loc st i0) (inv_copy_item root loc st i0 Hinv)) as (I1 & I2).
+  split; auto. intros q Hq. apply I2 in Hq. now apply made_copy_item in Hq.
+Qed.
+
+Lemma write_node_inv0 root st n :
+  inv root st ->
+  inv root (write_node root st n) /\
+  (forall q, made q (write_node root st n) -> made q st \/ q = n_loc n).
+Proof.
+  intros Hinv. unfold write_node.
+  set (st1 := if is_index_file (n_file n) then mkdir (n_loc n) st else st).
+  assert (I1 : inv root st1) by (unfold st1; destruct (is_index_file _); auto using inv_mkdir).
+  assert (M1 : forall q, made q st1 -> made q st \/ q = n_loc n).
+  { unfold st1. destruct (is_index_file _); auto. intros q. apply made_mkdir. }
+  set (st2 := add_file (out_path n) (Page (src_path n)) st1).
+  assert (I2 : inv root st2) by now apply inv_add_file.
+  destruct (fold_copy_items_inv root (n_loc n) (n_copy n) st2 I2) as (I3 & M3).
+  set (st3 := fold_left (copy_item root (n_loc n)) (n_copy n) st2) in *.
+  split.
+  - eapply inv_same; eauto.
+    + apply grows_fold. intros. apply grows_copy_file.
+    + intros q. unfold copied. now rewrite fold_copy_files_dirs.
+  - intros q. unfold made. rewrite fold_copy_files_dirs. intros Hq. apply M1. now apply M3.
+Qed.
+
+Definition below (L q : list str) : Prop := exists r, r <> [] /\ q = L ++ r.
+Definition under (L q : list str) : Prop := exists r, q = L ++ r.
+Definition fresh (L : list str) (st : fs) : Prop := forall q, made q st -> ~ below L q.
+
+Lemma below_app L c q : below (L ++ [c]) q -> below L q.
+Proof.
+  intros (r & Hr & ->). exists (c :: r). split; [discriminate|]. now rewrite <- app_assoc.
+Qed.
+Lemma not_below_self L : ~ below L L.
+Proof.
+  intros (r & Hr & E). apply Hr. rewrite <- (app_nil_r L) in E at 1.
+  apply app_inv_head in E. auto.
+Qed.
+Lemma below_sib L c s q : below (L ++ [c]) q -> under (L ++ [s]) q -> c = s.
+Proof.
+  intros (r & _ & ->) (r' & E). rewrite <- !app_assoc in E. apply app_inv_head in E.
+  simpl in E. congruence.
+Qed.
+Lemma under_app L c q : under (L ++ [c]) q -> under L q.
+Proof. intros (r & ->). exists (c :: r). now rewrite <- app_assoc. Qed.
+Lemma under_self L : under L L.
+Proof. exists []. now rewrite app_nil_r. Qed.
+Lemma below_item L item : below L (L ++ [item]).
+Proof. exists [item]. split; [discriminate|reflexivity]. Qed.
+
+Definition tree_ok (root : list entry) (nd : node) : Prop :=
+  nwf nd -> forall st, inv root st -> fresh (n_loc nd) st ->
+    inv root (write_tree root st nd) /\
+    grows st (write_tree root st nd) /\
+    (forall q, made q (write_tree root st nd) -> made q st \/ under (n_loc nd) q) /\
+    (forall n, In n (preorder nd) -> n = nd \/ n_file n = idx ->
+               copied_ok root (write_tree root st nd) n).
+
+Definition sub_shape (L : list str) (x : node) : Prop :=
+  (n_file x <> idx /\ n_subs x = [] /\ n_loc x = L) \/
+  (n_file x = idx /\ n_loc x = L ++ [n_name x] /\ nwf x).
+
+Lemma subs_ok root L subs :
+  Forall (tree_ok root) subs -> NoDup (map n_name subs) -> Forall (sub_shape L) subs ->
+  forall st1, inv root st1 ->
+    (forall q, made q st1 ->
+               ~ below L q \/ exists s, ~ In s (map n_name subs) /\ under (L ++ [s]) q) ->
+    inv root (fold_left (fun st x => write_tree root st x) subs st1) /\
+    grows st1 (fold_left (fun st x => write_tree root st x) subs st1) /\
+    (forall q, made q (fold_left (fun st x => write_tree root st x) subs st1) ->
+               made q st1 \/ under L q) /\
+    (forall x n, In x subs -> In n (preorder x) -> n_file n = idx ->
+                 copied_ok root (fold_left (fun st x => write_tree root st x) subs st1) n).
+Proof.
+  induction subs as [|x subs IH]; intros HT Hnd Hsh st1 Hinv Hm; cbn [fold_left].
+  - repeat split; auto using grows_refl. intros x n [].
+  - inversion HT as [|? ? Tx HT']; subst. inversion Hsh as [|? ? Sx Hsh']; subst.
+    simpl in Hnd. inversion Hnd as [|? ? Hnx Hnd']; subst.
+    set (st2 := write_tree root st1 x).
+    destruct Sx as [(Fx & Sx & Lx)|(Fx & Lx & Wx)].
+    + (* a leaf page *)
+      assert (E2 : st2 = write_node root st1 x).
+      { unfold st2. destruct x; simpl in Sx; subst. reflexivity. }
+      destruct (write_node_inv0 root st1 x Hinv) as (I2 & M2). rewrite <- E2 in I2, M2.
+      assert (G2 : grows st1 st2) by (rewrite E2; apply grows_write_node).
+      assert (Hm2 : forall q, made q st2 ->
+                ~ below L q \/ exists s, ~ In s (map n_name subs) /\ under (L ++ [s]) q).
+      { intros q Hq. apply M2 in Hq as [Hq|Hq].
+        - apply Hm in Hq as [Hq|(s & Hs & Hq)]; auto. right. exists s. split; auto.
+          intros Hin. apply Hs. now right.
+        - left. rewrite Hq, Lx. apply not_below_self. }
+      destruct (IH HT' Hnd' Hsh' st2 I2 Hm2) as (I3 & G3 & M3 & C3).
+      split; auto. split; [eapply grows_trans; eauto|]. split.
+      * intros q Hq. apply M3 in Hq as [Hq|Hq]; auto. apply M2 in Hq as [Hq|Hq]; auto.
+        right. rewrite Hq, Lx. apply under_self.
+      * intros x' n [<-|Hx'] Hn Hf; [|eapply C3; eauto].
+        exfalso. destruct x; simpl in Sx; subst. simpl in Hn. destruct Hn as [<-|[]]. auto.
+    + (* a sub-tree *)
+      assert (Fr : fresh (n_loc x) st1).
+      { intros q Hq Hb. rewrite Lx in Hb. apply Hm in Hq as [Hq|(s & Hs & Hq)].
+        - apply Hq. eapply below_app; eauto.
+        - apply Hs. left. eapply below_sib; eauto. }
+      destruct (Tx Wx st1 Hinv Fr) as (I2 & G2 & M2 & C2). fold st2 in I2, G2, M2, C2.
+      assert (Hm2 : forall q, made q st2 ->
+                ~ below L q \/ exists s, ~ In s (map n_name subs) /\ under (L ++ [s]) q).
+      { intros q Hq. apply M2 in Hq as [Hq|Hq].
+        - apply Hm in Hq as [Hq|(s & Hs & Hq)]; auto. right. exists s. split; auto.
+          intros Hin. apply Hs. now right.
+        - right. exists (n_name x). split; auto. now rewrite <- Lx. }
+      destruct (IH HT' Hnd' Hsh' st2 I2 Hm2) as (I3 & G3 & M3 & C3).
+      split; auto. split; [eapply grows_trans; eauto|]. split.
+      * intros q Hq. apply M3 in Hq as [Hq|Hq]; auto. apply M2 in Hq as [Hq|Hq]; auto.
+        right. rewrite Lx in Hq. eapply under_app; eauto.
+      * intros x' n [<-|Hx'] Hn Hf; [|eapply C3; eauto].
+        eapply copied_ok_grows; [apply C2; auto|exact G3].
+Qed.
+
+Lemma tree_all root nd : tree_ok root nd.
+Proof.
+  induction nd as [a b L o c fl subs IH] using node_ind'.
+  intros Hnwf st Hinv Hfresh. inversion Hnwf as [? ? ? ? ? ? ? Hnd Hsh]; subst.
+  cbn [write_tree]. cbn [n_loc] in *.
+  set (nd := Node a b L o c fl subs) in *.
+  assert (F1 : forall item, ~ made (n_loc nd ++ [item]) st).
+  { intros item Hm. eapply Hfresh; eauto. apply below_item. }
+  destruct (write_node_inv root st nd Hinv F1) as (I1 & M1 & C1).
+  set (st1 := write_node root st nd) in *.
+  assert (Hm1 : forall q, made q st1 ->
+              ~ below L q \/ exists s, ~ In s (map n_name subs) /\ under (L ++ [s]) q).
+  { intros q Hq. left. apply M1 in Hq as [Hq|Hq]; [now apply Hfresh|].
+    rewrite Hq. apply not_below_self. }
+  destruct (subs_ok root L subs IH Hnd Hsh st1 I1 Hm1) as (I2 & G2 & M2 & C2).
+  split; auto. split; [eapply grows_trans; [apply grows_write_node|exact G2]|]. split.
+  - intros q Hq. apply M2 in Hq as [Hq|Hq]; auto. apply M1 in Hq as [Hq|Hq]; auto.
+    right. rewrite Hq. apply under_self.
+  - intros n Hn Hor.
+    assert (Cnd : copied_ok root (fold_left (fun st x => write_tree root st x) subs st1) nd)
+      by (eapply copied_ok_grows; eauto).
+    change (preorder nd) with (nd :: flat_map preorder subs) in Hn.
+    destruct Hn as [<-|Hn]; auto.
+    destruct Hor as [->|Hf]; auto.
+    apply in_flat_map in Hn as (x & Hx & Hn). eapply C2; eauto.
+Qed.
+
+Theorem copy_subdir_copied_run proj root nd n :
+  wf_tree (Dir [] root) = true -> page_tree proj root = RNode nd ->
+  In n (preorder nd) -> n_file n = idx ->
+  copied_ok root (writeout root (RNode nd)) n.
+Proof.
+  intros Hwf G Hn Hf. unfold writeout, res_nodes. rewrite write_tree_preorder.
+  pose proof (gpt_nwf proj (Dir [] root) [] root eq_refl None [] nd Hwf G) as Hnwf.
+  assert (L0 : n_loc nd = []).
+  { unfold page_tree in G. now apply gpt_node_fields in G as (_ & _ & ->). }
+  assert (I0 : inv root fs0) by (intros q [H|[]]; discriminate).
+  assert (F0 : fresh (n_loc nd) fs0).
+  { intros q Hq. rewrite L0. destruct Hq as [[= <-]|[]]. apply not_below_self. }
+  destruct (tree_all root nd Hnwf fs0 I0 F0) as (_ & _ & _ & C).
+  apply C; auto.
+Qed.
+
+Example ex_copy_subdir :
+  exists nd, page_tree [] ex_tree = RNode nd /\ n_file nd = idx /\ In (s "img") (n_copy nd) /\
+    dir_at (n_loc nd) ex_tree = Some ex_tree /\
+    find_entry (s "img") ex_tree = Some (Dir (s "img") [File (s "x.png") false [] []]) /\
+    file_at [s "img"; s "x.png"] (f_files (writeout ex_tree (page_tree [] ex_tree)))
+    = Some (Copy [s "img"; s "x.png"]) /\
+    file_at [s "notes.txt"] (f_files (writeout ex_tree (page_tree [] ex_tree)))
+    = Some (Copy [s "notes.txt"]) /\
+    file_at [s "sub"; s "deep.html"] (f_files (writeout ex_tree (page_tree [] ex_tree)))
+    = Some (Page [s "sub"; s "deep.md"]).
+Proof.
+  destruct (page_tree [] ex_tree) as [| |nd] eqn:G; [vm_compute in G; discriminate ..|].
+  exists nd. split; auto. vm_compute in G. injection G as <-.
+  repeat split; try reflexivity. vm_compute. now left.
+Qed.
+
+Example ex_order_and_skip :
+  NoDup (map ename ex_tree) /\
+  (exists nd, gpt [] None [] (Dir [] ex_tree) = RNode nd /\
+     map n_name (n_subs nd) = [s "sub"; s "b.md"; s "a.md"] /\
+     in_opt (s "sub") None = str_in (s "sub") (n_copy nd)) /\
+  (exists des, find_entry (s "sub") ex_tree = Some (Dir (s "sub") des)) /\
+  visible (s "sub") = true /\ s "sub" <> idx /\
+  In [s "notes.txt"] (spec_copied [] (Dir [] ex_tree)).
+Proof.
+  split; [apply nodup_names_iff; reflexivity|].
+  split.
+  { destruct (gpt [] None [] (Dir [] ex_tree)) as [| |nd] eqn:G; [vm_compute in G; discriminate ..|].
+    exists nd. split; auto. vm_compute in G. injection G as <-. split; reflexivity. }
+  split; [eexists; reflexivity|]. split; [reflexivity|].
+  split; [intros H; vm_compute in H; discriminate|].
+  vm_compute. now left.
+Qed.
